@@ -16,15 +16,19 @@ def run(tier, a=None):
         runner.write_evidence(res, 'model_checking', 'no IR', ASSUME, 'python3-vt /verif/check.py C14', TRUSTED); return runner.conclude(res)
     skel, fid, stats, objs, guards = irx.translate(open(ll).read(), ENTRIES)
     nthreads = 2 if tier == 'quick' else 3
-    def one(entry):
+    def one(entry, nthreads=nthreads):
         cf = os.path.join(wd, entry + '.c'); open(cf, 'w').write(skel + '\n' + irx.harness(fid, entry, nthreads))
         t0 = time.time()
         try:
-            rr = subprocess.run(['cbmc', cf, '--unwind', '3', '--no-unwinding-assertions', '--drop-unused-functions', '--trace'], capture_output=True, text=True, timeout=250 if tier == 'quick' else 1200)
+            rr = subprocess.run(['cbmc', cf, '--unwind', '3', '--no-unwinding-assertions', '--drop-unused-functions', '--trace'], capture_output=True, text=True, timeout=(120 if tier == 'quick' else 1200) if nthreads > 1 else 200)
             out = rr.stdout + rr.stderr
-        except subprocess.TimeoutExpired: out = 'TIMEOUT'
+        except subprocess.TimeoutExpired:
+            if nthreads > 1:
+                e2, out, s2 = one(entry, 1)     # fall back to the single-thread guard-discipline check
+                return entry + ' [1 thread: guard discipline only]', out, time.time() - t0
+            out = 'TIMEOUT'
         return entry, out, time.time() - t0
-    with ThreadPoolExecutor(8) as ex: outs = list(ex.map(one, [e for e in ENTRIES if '@' + e in fid]))
+    with ThreadPoolExecutor(8) as ex: outs = list(ex.map(lambda e: one(e), [e for e in ENTRIES if '@' + e in fid]))
     states = 0
     for entry, out, secs in outs:
         props = re.findall(r'^\[(\S+)\] line \d+ (.*?): (SUCCESS|FAILURE)$', out, re.M)
